@@ -64,3 +64,31 @@ PROPS["C08"] = dict(
     outside=["other timeframes and column types (C29 covers column layouts, C30 the index arithmetic for every timeframe)", "more than two requests / rows per request", "years other than 2019/2020", "known finding region: a row dated 1 January of a 1D bucket is never returned (index 0 = hole marker)"],
     stubs=FS_STUBS, assumptions=COMMON_ASSUME,
 )
+
+
+RW_EXPL = "Bounded symbolic execution of the real write and read paths end to end over the engine's file-system model (catalog bucket creation, Writer.WriteCSM -> WriteRecords -> FlushCommandsToWAL -> WriteBufferToFile/WriteBufferToFileIndirect, planner.Query.Parse -> NewReader/NewIOPlan -> Reader.Read with readForward/readBackward/packingReader/readSecondStage/RewriteBuffer/trimResultsToRange/trimResultsToLimit -> RowSeries.ToColumnSeries). "
+TICK_STUBS = ["io.GetIntervalTicks32Bit replaced by its contract (C10): within one interval some non-decreasing function of the timestamp into uint32", "executor.GetTimeFromTicks replaced by its contract (C10): some instant inside the interval, deterministic per (interval, ticks) and ordered like the ticks"]
+
+PROPS["C09"] = dict(
+    explanation=RW_EXPL + "Variable-length bucket: three records in two write requests, intervals case-split over candidate slots, time inside the interval (second and nanosecond) and values symbolic; the oracle checks that every record is returned exactly once, in (interval, tick) order, with its value and a decoded second inside its interval. Compression is disabled so nothing of the storage path is abstracted.",
+    runs=[dict(pkg="executor", files=["c08_fixed.go", "c09_variable.go"], entries=["VerifC09History"], must_reach=["entered", "written", "queried"], opts=dict(timeout=60))],
+    bounds=["variable-length buckets with timeframe 1D and 1H, one int32 payload column + Nanoseconds", "3 records; requests {r0,r1},{r2} and {r0},{r1,r2}", "each record's interval case-split over 3 candidate slots (leap day, 1 March, last slot of 2019; thorough: 5)", "second and nanosecond inside the interval symbolic; values any pairwise distinct int32", "DisableVariableCompression=true"],
+    outside=["snappy-compressed storage (the codec is not executed)", "timestamp precision of the tick codec (C10)", "more than 3 records, more than two requests"],
+    stubs=FS_STUBS + TICK_STUBS, assumptions=COMMON_ASSUME,
+)
+
+PROPS["C11"] = dict(
+    explanation=RW_EXPL + "Three records around the 2019/2020 year edge in a fixed-length or variable-length bucket; the same query is run unrestricted and with a [start,end] range whose slot is case-split and whose second (and nanosecond) inside the slot is symbolic, including inverted and empty ranges; the oracle is the filter of the unrestricted result.",
+    runs=[dict(pkg="executor", files=["c08_fixed.go", "c09_variable.go", "c11_range.go"], entries=["VerifC11Range"], must_reach=["entered", "written", "queried"], opts=dict(timeout=60))],
+    bounds=["quick: 1D buckets, thorough: 1H buckets; fixed (int32 column) and variable (int32 + Nanoseconds)", "3 records, placements: quick 2 per record type, thorough all 4^3 over 4 consecutive slots across the year edge", "range start and end slot each case-split over 7 slots (one before the first record slot .. one after the last), second in the slot and nanosecond symbolic"],
+    outside=["more than 3 records; ranges further away than one slot from the data", "tick codec precision (C10)", "snappy-compressed storage"],
+    stubs=FS_STUBS + TICK_STUBS, assumptions=COMMON_ASSUME,
+)
+
+PROPS["C12"] = dict(
+    explanation=RW_EXPL + "As C11 plus a row limit N and a direction (FIRST/LAST), with and without a range; the oracle is first/last N of the filtered unrestricted result. A second harness makes N symbolic up to MaxInt32-1 on a forward scan to decide the int32 product RecordLen*N.",
+    runs=[dict(pkg="executor", files=["c08_fixed.go", "c09_variable.go", "c11_range.go"], entries=["VerifC12Limit", "VerifC12LimitOverflow"], must_reach=["entered", "queried"], opts=dict(timeout=60))],
+    bounds=["1D buckets (thorough: 1H), fixed and variable, 3 records, 2 placements per record type", "N in {1,2,4} (thorough 1..4), FIRST and LAST, without range and with a range (quick: start slot in {0,1}, end slot in {3,4}; thorough 7x7), seconds symbolic", "overflow unit: forward scan, N symbolic in 2..2147483646, 16-byte records"],
+    outside=["known finding regions: variable-length + limit + range (limit is applied to intervals before the range trim), N*RecordLen >= 2^31", "backward scans with symbolic N (the reader allocates N records up front)"],
+    stubs=FS_STUBS + TICK_STUBS, assumptions=COMMON_ASSUME,
+)
